@@ -125,6 +125,14 @@ def o_history(case):
 
     bc = BlockChain(parent_hash=anchor0, unlocked_block_storage={})
     cb_log = []
+    # "fresh": every delivery hands over newly made header objects (equal content) that the harness does not keep, the
+    # way a peer connection parses each announcement into new objects; a re-delivered header is then a different object
+    fresh = bool(case.get("fresh"))
+
+    def fresh_copies(items):
+        if not fresh:
+            return iter(items)
+        return (Header(h._hash, h.previous_block_hash, h.difficulty) for h in items)
 
     def callback(chain, ops):
         cb_log.append(list(ops))
@@ -264,7 +272,7 @@ def o_history(case):
                 # the batch arrives as a stream whose producer looks at the tracker between headers (a sync loop that
                 # logs its progress): reading the chain while a delivery is being consumed must not change the outcome
                 def stream(items=batch):
-                    for k, h in enumerate(items):
+                    for k, h in enumerate(fresh_copies(items)):
                         if k % 2 == 0:
                             bc.length()
                             bc.last_block_hash()
@@ -276,7 +284,7 @@ def o_history(case):
                 ops = bc.add_headers(stream())
                 labs.add("lazy-batch-reading-the-chain")
             else:
-                ops = bc.add_headers(iter(batch))
+                ops = bc.add_headers(fresh_copies(batch))
         except Exception as ex:
             ops = ex
         if same_batch_trigger and _stale_top(bc):
@@ -308,6 +316,11 @@ def o_history(case):
         guarded(verify, "deliver")
         if len(model.best_chains()) > 1:
             labs.add("tie")
+        if fresh:
+            # nothing here keeps a delivered object alive: the tracker owns them, as with headers parsed off the wire
+            cb_log[ncb:] = [None] * (len(cb_log) - ncb)
+            ops = new_cb = o = None
+            labs.add("fresh-object-per-delivery")
     labs.add("kind=" + kind)
     if wscale:
         labs.add("weights>=2^53")
@@ -448,6 +461,8 @@ def s_history(draw):
         case["wscale"] = wscale
     if draw(st.integers(0, 3)) == 0:
         case["lazy"] = True
+    if draw(st.integers(0, 2)) == 0:
+        case["fresh"] = True
     return case
 
 
@@ -487,6 +502,8 @@ def s_lock_scenario(draw):
     wscale = draw(WSCALES)
     if wscale:
         case["wscale"] = wscale
+    if draw(st.integers(0, 2)) == 0:
+        case["fresh"] = True
     return case
 
 
